@@ -318,7 +318,8 @@ impl Lex {
 pub fn token_filename(sources: &[(Xstr, Xstr)], token: &Xsubstr) -> Option<Xstr> {
     sources
         .iter()
-        .find(|x| &x.1 == token.parent())
+        // the very buffer the token was cut from, not any source that happens to have the same text
+        .find(|x| Xstr::ptr_eq(&x.1, token.parent()))
         .map(|x| x.0.clone())
 }
 
